@@ -27,12 +27,14 @@ import (
 func init() { modes["cpu"] = modeFn{gen: cpuGen, replay: cpuReplay} }
 
 type cpuRun struct {
-	c      *ctx
-	cpu    *cpu.CPU
-	mapper *memory.Mapper
-	intr   *interrupts.Interrupts
-	dead   bool // crashed or exited: state frozen until reset
-	deadAs string
+	c         *ctx
+	cpu       *cpu.CPU
+	mapper    *memory.Mapper
+	intr      *interrupts.Interrupts
+	dead      bool // crashed or exited: state frozen until reset
+	sumAfter  bool // instr() ends with a memsum
+	tagScheme int  // which per-cycle re-tagging values instr() uses
+	deadAs    string
 }
 
 var undefinedOpcodes = map[uint8]bool{0xcb: false, 0xd3: true, 0xdb: true, 0xdd: true, 0xe3: true, 0xe4: true,
@@ -103,6 +105,24 @@ func (x *cpuRun) do(op string) string {
 			return "ok"
 		case "peek":
 			return hx2(x.mapper.Read(uint16(unhex(w[1]))))
+		case "memsum":
+			// checksum of every non-zero byte of VRAM, WRAM, OAM and HRAM: a stray write anywhere shows
+			var sum uint32
+			add := func(lo, hi int) {
+				for a := lo; a <= hi; a++ {
+					if v := x.mapper.Read(uint16(a)); v != 0 {
+						sum += (uint32(a)<<8 | uint32(v)) * 2654435761
+					}
+				}
+			}
+			add(0x8000, 0x9fff)
+			add(0xc000, 0xdfff)
+			add(0xfe00, 0xfe9f)
+			add(0xff80, 0xfffe)
+			return fmt.Sprintf("%08x", sum)
+		case "input":
+			x.cpu.OnInput()
+			return x.state()
 		case "c":
 			n := atoi(w[1])
 			for k := 0; k < n && !x.dead; k++ {
@@ -219,7 +239,14 @@ func (x *cpuRun) instr(prefixed bool, op uint8, rs regset, op1, op2 uint8, tagRe
 				if code(a) || !((a >= 0xc000 && a < 0xfe00) || (a >= 0xff80 && a <= 0xfffe)) {
 					continue
 				}
-				x.do(fmt.Sprintf("poke %04x %02x", a, uint8(0x10*(cycles+1)+k)))
+				v := uint8(0x10*(cycles+1) + k)
+				if x.tagScheme == 1 { // every bit flips from one cycle to the next
+					v = uint8(0x35+k*9) ^ uint8(cycles*0x22)
+					if cycles%2 == 1 {
+						v = ^v
+					}
+				}
+				x.do(fmt.Sprintf("poke %04x %02x", a, v))
 			}
 		}
 		out := x.do("c 1")
@@ -233,6 +260,9 @@ func (x *cpuRun) instr(prefixed bool, op uint8, rs regset, op1, op2 uint8, tagRe
 	}
 	if !tagReads {
 		x.peekAround(rs, nn, op1)
+	}
+	if x.sumAfter {
+		x.do("memsum")
 	}
 	return cycles
 }
@@ -285,6 +315,8 @@ func defined(prefixed bool, op uint8) bool {
 
 func cpuGenInstr(c *ctx, x *cpuRun, prop string) {
 	r := c.rng
+	x.sumAfter = true
+	defer func() { x.sumAfter = false }()
 	perOp := 24
 	if c.thorough() {
 		perOp = 400
@@ -304,7 +336,20 @@ func cpuGenInstr(c *ctx, x *cpuRun, prop string) {
 					rs.f = uint8(k%16) << 4 // every flag nibble
 				}
 				op1, op2 := fixOperands(r, pre == 1, op, &rs)
+				if pre == 0 && k < 12 {
+					// boundary operand bytes (displacement -128/-1/0/+127, page ends for 16-bit operands)
+					b := []uint8{0x80, 0xff, 0x00, 0x7f, 0xfe, 0x01}[k%6]
+					switch op {
+					case 0xe0, 0xf0:
+						op1 = []uint8{0x80, 0xfe, 0xff, 0x0f, 0x81, 0xfd}[k%6]
+					case 0xea, 0xfa, 0x08:
+						op1 = b // low byte; the high byte stays in WRAM
+					default:
+						op1 = b
+					}
+				}
 				tag := prop == "C03" || (prop != "C02" && k%4 == 3)
+				x.tagScheme = (k / 4) % 2
 				n := x.instr(pre == 1, op, rs, op1, op2, tag)
 				c.class(fmt.Sprintf("%d/%02x/f%x/c%d/t%v", pre, op, rs.f>>4, n, tag))
 			}
@@ -361,6 +406,7 @@ func cpuGenInstr(c *ctx, x *cpuRun, prop string) {
 				}
 				nn := uint16(op2)<<8 | uint16(op1)
 				x.peekAround(rs, nn, op1)
+				x.do("memsum")
 				c.class(fmt.Sprintf("pair/%d/%d%02x/c%d", pi, pre, op, n))
 			}
 		}
@@ -377,7 +423,8 @@ func cpuGenInstr(c *ctx, x *cpuRun, prop string) {
 	if prop == "C02" || prop == "C03" {
 		return
 	}
-	// exhaustive / structured value spaces of the quantifier
+	// exhaustive / structured value spaces of the quantifier (register-only instructions: no memory checksum)
+	x.sumAfter = false
 	aluImm := []uint8{0xc6, 0xce, 0xd6, 0xde, 0xe6, 0xee, 0xf6, 0xfe}
 	stepA, stepV := 1, 1
 	if !c.thorough() {
@@ -624,6 +671,9 @@ func cpuGenHalt(c *ctx, x *cpuRun) {
 						x.do("c 1") // HALT
 						for k := 0; k < idle; k++ {
 							x.do("c 1")
+							if k == 0 && o%5 == 0 {
+								x.do("input") // a key press (display callback) must not end HALT
+							}
 						}
 						if pend == 0 {
 							x.do("poke ff0f 04") // the request appears
